@@ -37,6 +37,8 @@ theorem nocap_setLimit (l : Option Nat) : NoCap (setLimit l) :=
   NoCap.op _ _ (by simp) (by simp) (fun r => by cases r <;> first | exact NoCap.ret _ | exact NoCap.fail _)
 theorem nocap_reqCapped (n : Nat) : NoCap (reqCapped n) :=
   NoCap.op _ _ (by simp) (by simp) (fun r => by cases r <;> first | exact NoCap.ret _ | exact NoCap.fail _)
+theorem nocap_getPos : NoCap getPos :=
+  NoCap.op _ _ (by simp) (by simp) (fun r => by cases r <;> first | exact NoCap.ret _ | exact NoCap.fail _)
 
 /-- closes `NoCap` goals about `do` blocks built from the operations above -/
 macro "nocap" : tactic => `(tactic|
@@ -44,7 +46,7 @@ macro "nocap" : tactic => `(tactic|
     | exact NoCap.pure' _ | exact NoCap.ret _ | exact NoCap.fail _ | exact NoCap.contentErr' | exact NoCap.panic' _
     | exact nocap_takeOptU8 | exact nocap_peekAt _ | exact nocap_peek2 | exact nocap_need _
     | exact nocap_takeN _ | exact nocap_skipN _ | exact nocap_sliceN _ | exact nocap_getLimit
-    | exact nocap_setLimit _ | exact nocap_reqCapped _
+    | exact nocap_setLimit _ | exact nocap_reqCapped _ | exact nocap_getPos
     | assumption
     | apply NoCap.bind
     | intro _
@@ -156,7 +158,7 @@ theorem nocap_skipAll : ∀ (fuel : Nat) (c : Cons), NoCap (skipAll c fuel) := b
 theorem nocap_decodeTop (m : Mode) (op : Cons → Prog (α × Cons)) (hop : ∀ c, NoCap (op c)) :
     NoCap (decodeTop m op) := by
   unfold decodeTop
-  have := hop ⟨.unbounded, m⟩
+  have := hop ⟨.unbounded, m, 0⟩
   have h := nocap_cons_exhausted
   nocap
   exact h _
